@@ -37,6 +37,10 @@ def rot_sampler(rng):
 
 
 def angle_sampler(rng):
+    """angles in degrees: generic ones and, one time in eight, a multiple of 90 (poles of the tilt, half and full turns, negative
+    angles) -- the places where wrapping, folding and 'unique representative' shortcuts differ from the identity"""
+    if rng.integers(0, 8) == 0:
+        return float(rng.choice([0.0, 180.0, -180.0, 90.0, -90.0, 270.0, 360.0]))
     return float(rng.uniform(-180, 180))
 
 
@@ -472,6 +476,23 @@ def labels_obligation(prop, floor=0):
                 ctx.finding(e.fn, e.node, "the result of a floating-point computation is stored into an array created with zeros_like / empty_like of the "
                             "caller's own array: the array inherits the caller's element type, so integer input (axis-aligned normals, voxel "
                             "positions) truncates every stored value", e.node, m)
+        # <column>[i] with a running position
+        for it in its:
+            for e in it.events:
+                if e.kind != "typing" or e.name != "series-by-position":
+                    continue
+                k = (e.fn, id(e.node), "series-by-position")
+                if k in seen:
+                    continue
+                seen.add(k)
+                try:
+                    m, _ = ctx.prog.func(e.fn)
+                except Exception:  # noqa
+                    m = None
+                ctx.count(1, None)
+                ctx.finding(e.fn, e.node, "a table column is indexed with a running position (`column[i]`, i from enumerate / range): on a pandas column "
+                            "an integer is looked up among the row labels, so for a list whose index is not 0..n-1 (a selection, a sorted or "
+                            "concatenated list) the value of another row is taken, or the lookup fails (use .iloc[i] or .to_numpy()[i])", e.node, m)
         # `value in column`: pandas answers for the row labels
         for it in its:
             for e in it.events:
@@ -526,7 +547,7 @@ def selectors_obligation(prop):
     def run(ctx):
         quals = [q for q in ENTRIES[prop] if ctx.prog.has(q)]
         mods = sorted({q.split(".")[0] for q in quals})
-        n_fn = n_sel = n_acc = 0
+        n_fn = n_sel = n_acc = n_flag = 0
         for q, m, fn in ctx.prog.functions():
             if q.split(".")[0] not in mods:
                 continue
@@ -544,10 +565,29 @@ def selectors_obligation(prop):
                 ctx.finding(q, st, f"`{name}` is started as an empty container before the loop (line {init.lineno}) and used after it, but inside the loop "
                             f"it is overwritten (`{norm_text(st)[:70]}`) instead of extended: only the last iteration contributes, the results of all "
                             "earlier iterations are lost", st, m)
-        ctx.count(n_fn, {"modules": mods, "functions scanned": n_fn, "named selectors examined": n_sel, "accumulators examined": n_acc})
+            def _returns_bool(c_, m_=m):
+                d_ = ctx.prog.resolve(m_, c_.func)
+                t_ = ctx.prog.repo_qual(d_) if d_ else None
+                if t_ is None:
+                    return False
+                try:
+                    _, f_ = ctx.prog.func(t_)
+                except Exception:  # noqa
+                    return False
+                rets_ = [r_.value for r_ in ast.walk(f_) if isinstance(r_, ast.Return)]
+                return bool(rets_) and all(isinstance(r_, ast.Constant) and isinstance(r_.value, bool) for r_ in rets_)
+
+            inv, ex3 = dataflow.python_bool_inverted(m, fn, _returns_bool)
+            n_flag += ex3
+            for use, name in inv:
+                ctx.finding(q, use, f"`~{name}`: `{name}` is a plain Python bool here (only ever assigned True / False), and `~` on it is the integer "
+                            "complement, not `not`: ~True is -2 and ~False is -1, both true in a test, so the condition never selects the other "
+                            "branch (numpy booleans, where `~` means not, are another type)", use, m)
+        ctx.count(n_fn, {"modules": mods, "functions scanned": n_fn, "named selectors examined": n_sel, "accumulators examined": n_acc,
+                         "Python bool flags examined": n_flag})
 
     return Obligation("OX.S", "def-use rules over the property's modules: named row selectors are not reused after the column they test was rewritten; "
-                              "a result started empty before a loop is extended, not overwritten, inside it",
+                              "a result started empty before a loop is extended, not overwritten, inside it; `~` is not applied to a plain Python bool",
                       run, floor=1)
 
 
